@@ -7,6 +7,7 @@ import Vata.IsectModel
 import Vata.IsectBU
 import Vata.UnionModel
 import Vata.Candidate
+import Vata.ReduceModel
 import Driver.NfaHist
 import Driver.TaHist
 import Driver.MtHist
@@ -275,6 +276,11 @@ def checkReduce (args res : List String) : Except String (Findings × String) :=
   if (dedupRules R.rules).length > (dedupRules A.rules).length then f := f ++ ["violation reduce-more-rules"]
   if !(subB R.states A.states) then f := f ++ ["violation reduce-state-not-image-of-a-state"]
   if !nodupRules R.rules then f := f ++ ["violation duplicate rule in iteration of the result"]
+  -- the L2 model of Reduce as coded (simulation matrix, RestrictToSymmetric, GetQuotientProjection, collapse, trimming):
+  -- its sizes do not depend on the visiting order (`reduceModel_size_order_independent`), so they must be the implementation's
+  let M := reduceModel A A.states
+  if f.isEmpty && (M.states.length != R.states.length || (dedupRules M.rules).length != (dedupRules R.rules).length) then
+    f := f ++ [s!"mismatch reduce-model sizes: model {M.states.length} states / {(dedupRules M.rules).length} rules, implementation {R.states.length} / {(dedupRules R.rules).length}"]
   pure (f, s!"states={A.states.length}->{R.states.length}")
 
 def checkSim (args res : List String) (up : Bool) : Except String (Findings × String) := do
